@@ -148,6 +148,41 @@ def build_mm(case, T, seen):
     return mm, adds, prov
 
 
+def run_repo_op(prov, op, k, T, seen):
+    """GlobalRepo.load_models_in_model_repo: returns a repository, not a model."""
+    kw = {}
+    for key, spec in op["kw"]:
+        kw[key] = value(spec, T)
+    del seen[:]
+    slots = REC["slots"] = []
+    out = {}
+    try:
+        repo = prov.load_models_in_model_repo(**kw)
+        for x in slots:
+            if x is not None and not isinstance(x, (str, int, float, bool)) and id(x) not in CREATED:
+                CREATED[id(x)] = (k, x)
+        out["kind"] = "repo"
+        out["new"] = [desc(x, T) for x in slots]
+        out["repo"] = [[rel(key, T), desc(x, T)] for key, x in repo.all_models.filename_to_model.items() if os.path.isabs(key)]
+    except TypeError as ex:
+        out["kind"] = "typeerror" if "multiple values" in str(ex) else "err"
+        out["exc"] = "TypeError: " + str(ex).replace(T, "{T}")
+    except TextXError as ex:
+        mt = re.match(r"^unknown parameter (.*) \((.*)\)$", getattr(ex, "message", str(ex)), re.S)
+        out["kind"] = "rejected" if mt else "err"
+        if mt:
+            out["key"], out["source"] = mt.group(1), mt.group(2)
+        out["exc"] = type(ex).__name__ + ": " + str(ex).replace(T, "{T}")
+    except Exception as ex:  # noqa
+        out["kind"] = "err"
+        out["exc"] = type(ex).__name__ + ": " + str(ex).replace(T, "{T}")
+    finally:
+        REC["slots"] = None
+    out["seen"] = [list(x) for x in seen]
+    out["entered"] = len(slots)
+    return out
+
+
 def run_op(mm, op, k, T, seen, keep):
     kw = {}
     for key, spec in op["kw"]:
@@ -236,7 +271,7 @@ def run_case(case):
         outs = []
         keep = []
         for k, op in enumerate(case["ops"]):
-            o = run_op(mm, op, k, T, seen, keep)
+            o = run_repo_op(prov, op, k, T, seen) if op["entry"] == "repo" else run_op(mm, op, k, T, seen, keep)
             if k == 0 and case.get("builtin") and o["kind"] == "loaded":
                 # the model loaded by operation 0 becomes a builtin model of the entry metamodel
                 mm.builtin_models = ModelRepository()
@@ -246,6 +281,7 @@ def run_case(case):
             outs.append(o)
         return {"adds": adds, "ops": outs,
                 "sig_str": _argnames(type(mm).model_from_str), "sig_file": _argnames(type(mm).model_from_file),
+                "sig_repo": _argnames(sp.GlobalRepo.load_models_in_model_repo),
                 "builtin": list(metamodel_from_str("M: 'x';").model_param_defs)}
     finally:
         os.chdir(cwd)
